@@ -21,6 +21,9 @@
    leaves exactly those comparisons open: EqR is "t", "f", or "u" (unspecified) when the answer hinges on a
    NONE/NONE pair.
 
+   spec/VarApi.tla extends this module with the rest of the public surface (typed containers, the other constructors,
+   read-only queries, literal comparisons, enumeration as a process interleaved with these calls).
+
    hz collects spec-level hazard tags (supersets of the known-finding predicates the replayer evaluates exactly
    on the real object).  R: MC_VarHeap*.cfg emit one JSON line per transition -> harness/c04_replay;
    V: Trace_VarHeap validates recorded executions of the real Var against the same actions.                    *)
@@ -41,14 +44,52 @@ vars == <<root, heap, hist, hz>>
 (* values *)
 Val(t, v) == [t |-> t, v |-> v]
 NoneV == Val("none", 0)
-\* string table: code sequences; 2 is the longest inline string (7 bytes), 3 the shortest heap string (8 bytes)
+\* string table: code sequences; 2 is the longest inline string (7 bytes), 3 the shortest heap string (8 bytes);
+\* 4..9 are the numeric-looking texts "12", "1.5xyzuvw", "1.5", "abc", " 7", "-2.5" for the string -> number conversions
 StrTab == << <<>>, <<97,98,99,100,101,102,103>>, <<97,98,99,100,101,102,103,104>>, <<49,50>>,
-             <<49,46,53,120,121,122,117,118,119>> >>
-StrInt  == <<0, 0, 0, 12, 1>>      \* atoi
-StrDbl2 == <<0, 0, 0, 24, 3>>      \* 2 * atof
+             <<49,46,53,120,121,122,117,118,119>>, <<49,46,53>>, <<97,98,99>>, <<32,55>>, <<45,50,46,53>> >>
+(* String -> number is the C library's reading of the longest numeric prefix (the implementation calls atoi/atof):
+   optional white space, optional sign, digits, and for the floating-point reading an optional fraction; no digits
+   at all give 0.  The fraction is read exactly when it is a (possibly empty) run of zeros or a 5 followed by
+   zeros - the specification's numbers are integers and halves (Supported below is ASSUMEd for the table). *)
+IsWs(c) == c \in {32, 9, 10, 11, 12, 13}
+IsDig(c) == c \in 48..57
+RECURSIVE SkipWs(_, _), DigitRun(_, _, _)
+SkipWs(s, i) == IF i <= Len(s) /\ IsWs(s[i]) THEN SkipWs(s, i + 1) ELSE i
+\* value and end of the digit run that starts at i
+DigitRun(s, i, acc) == IF i <= Len(s) /\ IsDig(s[i]) THEN DigitRun(s, i + 1, 10 * acc + (s[i] - 48)) ELSE [v |-> acc, i |-> i]
+NumPrefix(s) ==
+    LET i0 == SkipWs(s, 1)
+        signed == i0 <= Len(s) /\ s[i0] \in {43, 45}
+        neg == signed /\ s[i0] = 45
+        i1 == IF signed THEN i0 + 1 ELSE i0
+        ip == DigitRun(s, i1, 0)
+        dot == ip.i <= Len(s) /\ s[ip.i] = 46
+        fp == IF dot THEN DigitRun(s, ip.i + 1, 0) ELSE [v |-> 0, i |-> ip.i]
+        nint == ip.i - i1
+        nfrac == IF dot THEN fp.i - (ip.i + 1) ELSE 0
+        \* the fraction digits as a number and its scale: exact when frac * 2 is a multiple of 10^nfrac
+        RECURSIVE Pow10(_)
+        Pow10(n) == IF n = 0 THEN 1 ELSE 10 * Pow10(n - 1)
+        any == nint + nfrac > 0
+        half == IF any /\ nfrac > 0 THEN (2 * fp.v) \div Pow10(nfrac) ELSE 0
+        exact == ~any \/ nfrac = 0 \/ (2 * fp.v) % Pow10(nfrac) = 0
+        next == IF ~any THEN 0 ELSE IF dot THEN fp.i ELSE ip.i
+    IN [int |-> IF nint = 0 THEN 0 ELSE IF neg THEN -ip.v ELSE ip.v,
+        dbl2 |-> IF ~any THEN 0 ELSE (IF neg THEN -1 ELSE 1) * (2 * ip.v + half),
+        exact |-> exact,
+        \* an exponent part directly after the number would change the floating-point reading: not in the table
+        noexp |-> ~(any /\ next <= Len(s) /\ s[next] \in {69, 101})]
+Atoi(s) == NumPrefix(s).int
+Atof2(s) == NumPrefix(s).dbl2
+Supported == \A i \in 1..Len(StrTab) : NumPrefix(StrTab[i]).exact /\ NumPrefix(StrTab[i]).noexp
+StrInt == [i \in 1..Len(StrTab) |-> Atoi(StrTab[i])]
+StrDbl2 == [i \in 1..Len(StrTab) |-> Atof2(StrTab[i])]
 ScalarTab == << Val("none", 0), Val("nul", 0), Val("bool", 1), Val("bool", 0), Val("int", 1), Val("int", 2),
                 Val("num", 2), Val("num", 3), Val("flt", 3), Val("str", 1), Val("str", 2), Val("str", 3),
-                Val("str", 4), Val("int", 0), Val("num", -1), Val("str", 5), Val("int", -7), Val("flt", 4) >>
+                Val("str", 4), Val("int", 0), Val("num", -1), Val("str", 5), Val("int", -7), Val("flt", 4),
+                Val("str", 6), Val("str", 7), Val("str", 8), Val("str", 9), Val("num", 0), Val("num", -5) >>
+ASSUME Supported
 Scalars == {ScalarTab[i] : i \in ScalarIds}
 IsNum(x) == x.t \in {"int", "num", "flt"}
 Halves(x) == IF x.t = "int" THEN 2 * x.v ELSE x.v
